@@ -12,7 +12,8 @@ Binding B1: a sample of the published programs is rendered to Python source, com
 linetrace=True/-DCYTHON_TRACE=1, run under a recorder; S (spec) = P (CPython on the same source) is required
 (start/end events, strict line events, executed lines), C (compiled) is compared with S: start/end sequence exactly,
 line events by membership (function on top, line executed by that activation).  Deviations are classified with the
-spec's implementation-shaped variants (return event emitted by the return statement; close() of a fresh generator).
+spec's implementation-shaped variants (return event emitted by the return statement; close() of a fresh generator;
+double end event of a cpdef function called from Python and left by an exception).
 Binding B2: every recorded stream is walked by TLC through the same automaton (spec/TraceEvents_Trace.tla).
 """
 import collections
@@ -36,10 +37,10 @@ TIERS = {
         "per_module": 80, "tlc_timeout": 1500,
     },
     "thorough": {
-        "bfs": [("TraceEvents_q1", 300, "def trees: 2 functions"),
-                ("TraceEvents_q2", 300, "generator trees: 2 functions"),
+        "bfs": [("TraceEvents_q1", 250, "def trees: 2 functions"),
+                ("TraceEvents_q2", 250, "generator trees: 2 functions"),
                 ("TraceEvents_t1", 300, "def trees with cdef / cpdef callees and a cpdef root")],
-        "given": (2600, 1500, "TraceEvents_given_t", 5, 4, ["def", "def", "ccall"], ["def", "def", "cfunc", "ccall"]),
+        "given": (2000, 1200, "TraceEvents_given_t", 5, 4, ["def"] * 5 + ["ccall"], ["def", "def", "cfunc", "ccall"]),
         "per_module": 100, "tlc_timeout": 3000,
     },
 }
@@ -60,7 +61,17 @@ def canon(case):
 
 
 def hazards(case):
-    return sorted((["retstmt"] if case["ir"] else []) + (["closeun"] if case["ic"] else []))
+    """spec side: the implementation-shaped variants that change the visible stream of this program"""
+    return sorted(case["hz"])
+
+
+def explain(case, pj):
+    """the largest set of variants whose predicted stream equals the recorded one"""
+    best = None
+    for v in case["iv"]:
+        if v["pj"] == pj and (best is None or len(v["fl"]) > len(best)):
+            best = sorted(v["fl"])
+    return best
 
 
 def stratified(cases, n, rng):
@@ -119,7 +130,7 @@ def replay_cases(cases, rep, rng, per_module, jobs, cov, samples, tot, selftest)
                                                     options={"language_level": 3}, cflags=cflags)))
     t0 = time.time()
     with concurrent.futures.ThreadPoolExecutor(max_workers=jobs) as ex:
-        futs = [(mi, cname, ex.submit(core.build_one, spec, core.subdir("build_" + cname))) for mi, cname, spec in specs]
+        futs = [(mi, cname, ex.submit(core.build_one, spec, core.subdir("build_" + cname), 3600)) for mi, cname, spec in specs]
         # P: CPython on the same sources, while the builds run
         P = {}
         for name, sp, its, deflines, hdef in info:
@@ -179,6 +190,8 @@ def replay_cases(cases, rep, rng, per_module, jobs, cov, samples, tot, selftest)
         # ---- C vs S
         for cname, _, _, kind in CONFIGS:
             b = builds[(mi, cname)]
+            if not b.ok and b.stage == "timeout":
+                core.die("build of %s (%s) timed out (machine load), not an observation" % (name, cname))
             if not b.ok:
                 rep.disagree({"config": cname, "hazard": "none", "kinds": "build"}, "build-failed",
                              {"module": name, "stage": b.stage, "errors": (b.errors or "")[-3000:]})
@@ -212,12 +225,14 @@ def replay_cases(cases, rep, rng, per_module, jobs, cov, samples, tot, selftest)
                                          detail(c, cname, c["ev"], st, {"event_index": lc[0]}))
                     if got[pid]["out"] != c["out"]:
                         tot["outcome_differs_events_equal"] += 1
+                elif kind == "trace" and c["p"][0]["k"] == "ccall" and pj == [["c", 1]] and got[pid]["out"] == "OT":
+                    # the cpdef root fails at its first line event: the frame of the C function has f_trace = None
+                    status = "impl"
+                    tot["cpdef_root_fails_under_settrace"] += 1
+                    rep.disagree(descriptor(c, cname, "cpdef-root"), "cpdef-from-python-fails-under-settrace",
+                                 detail(c, cname, v["proj"], pj, {"outcome": got[pid]["out"]}))
                 else:
-                    expl = None
-                    for var, hs in ((c["ib"], hz), (c["ir"], ["retstmt"]), (c["ic"], ["closeun"])):
-                        if var and pj == var:
-                            expl = hs
-                            break
+                    expl = explain(c, pj)
                     if expl:
                         status = "impl"
                         for h in expl:
@@ -227,7 +242,7 @@ def replay_cases(cases, rep, rng, per_module, jobs, cov, samples, tot, selftest)
                     else:
                         status = "unexplained"
                         rep.disagree(descriptor(c, cname, "+".join(hz) or "none"), "events-unexplained",
-                                     detail(c, cname, v["proj"], pj, {"impl_model_variants": {"retstmt": c["ir"], "closeun": c["ic"], "both": c["ib"]}}))
+                                     detail(c, cname, v["proj"], pj, {"impl_model_variants": c["iv"]}))
                 b2_status[rid] = ("C:" + cname, pid, c, status)
                 if len(samples) < 4 and rng.random() < 0.02:
                     samples.append({"program": lt.prog_src(c), "config": cname, "expected_start_end": v["proj"],
@@ -357,6 +372,8 @@ def run(tier, seed):
     # vacuity guard (model side): every action of Next was taken, every class of the property statement occurs
     need = ["event:call", "event:ret", "event:unw", "event:yield", "event:resume", "event:throw", "event:line",
             "outcome:ok", "outcome:VE", "outcome:OT", "generator-closed-early", "generator-resumed", "hazard:retstmt", "hazard:closeun"]
+    if tier == "thorough":
+        need.append("hazard:cpdefx")
     for k in need:
         if model[k] == 0:
             core.die("vacuous model: no published program with %s" % k)
